@@ -41,6 +41,9 @@ var binaryEscapes = []byte{'\\', '"', '\b', '\f', '\n', '\r', '\t'}
 // JSON literals
 var literals = []string{"true", "false", "null"}
 
+// maxNestingDepth is the nesting depth above which input is refused (the same limit as encoding/json).
+const maxNestingDepth = 10000
+
 func Transform(jsonData []byte) (result []byte, e error) {
 	// JSON data MUST be UTF-8 encoded
 	var jsonDataLength int = len(jsonData)
@@ -56,6 +59,7 @@ func Transform(jsonData []byte) (result []byte, e error) {
 	var parseArray func() string
 
 	var globalError error = nil
+	var depth int = 0
 
 	checkError := func(e error) {
 		// We only honor the first reported error
@@ -241,16 +245,29 @@ func Transform(jsonData []byte) (result []byte, e error) {
 	}
 
 	parseElement = func() string {
+		// bound the recursion: deeply nested input must end in an error, not in a stack overflow
+		depth++
+		if depth > maxNestingDepth {
+			depth--
+			setError("Exceeded maximum nesting depth")
+			return ""
+		}
+
+		var element string
 		switch scan() {
 		case '{':
-			return parseObject()
+			element = parseObject()
 		case '"':
-			return decorateString(parseQuotedString())
+			element = decorateString(parseQuotedString())
 		case '[':
-			return parseArray()
+			element = parseArray()
 		default:
-			return parseSimpleType()
+			element = parseSimpleType()
 		}
+
+		depth--
+
+		return element
 	}
 
 	parseArray = func() string {
